@@ -510,3 +510,68 @@ def labels_file_round_trip(nz: int, nh1: int, nh2: int, nsets: int, nalias: int,
         assert list(back.nuclideSetLabels) == ns
     if nalias > 0:
         assert list(back.aliasZoneLabels) == az
+
+
+# ----------------------------------------------------------------------------- DIF3D: optional 4D / 5D records, whole file
+dif3d = repo("armi.nuclearDataIO.cccc.dif3d")
+Dif3dStream = repo("armi.nuclearDataIO.cccc.dif3d:Dif3dStream")
+Dif3dData = repo("armi.nuclearDataIO.cccc.dif3d:Dif3dData")
+
+
+@lemma(gen={"numorp": (0, 2), "ncmrzs": (0, 2), "iv": (-99, 99), "w1": (0.5, 2.0), "w2": (0.5, 2.0), "z1": (0.0, 100.0), "z2": (0.0, 100.0), "n1": (1, 9), "n2": (1, 9)})
+def dif3d_file_round_trip(numorp: int, ncmrzs: int, iv: int, x: float, w1: float, w2: float, z1: float, z2: float, n1: int, n2: int):
+    """a whole DIF3D control file through the real Dif3dStream.readWrite and real binary records: identification, 1D
+    title record, the 2D integer and 3D real control parameters always; the 4D record (NUMORP overrelaxation factors) iff
+    NUMORP > 0; the 5D record (NCMRZS rebalancing boundaries and interval counts) iff NCMRZS > 0; everything is read
+    back.  NUMORP, NCMRZS in 0..2 enumerated; parameter values symbolic."""
+    numorp, ncmrzs = choose(numorp, 0, 2), choose(ncmrzs, 0, 2)
+    assume(-2147483648 <= iv and iv <= 2147483647 and 0 <= n1 and n1 <= 1000 and 0 <= n2 and n2 <= 1000)
+    data = Dif3dData()
+    ident = {"HNAME": "DIF3D", "HUSE1": "ARMI", "HUSE2": "", "VERSION": 1, "MAXSIZ": 1000, "MAXBLK": 10, "IPRINT": iv}
+    for key in ident:
+        data.metadata[key] = ident[key]
+    for i in range(dif3d.TITLE_RANGE):
+        data.metadata["TITLE%d" % i] = "T%d" % i
+    for key in dif3d.FILE_SPEC_2D_PARAMS:
+        data.twoD[key] = iv
+    data.twoD["NUMORP"], data.twoD["NCMRZS"] = numorp, ncmrzs
+    for key in dif3d.FILE_SPEC_3D_PARAMS:
+        data.threeD[key] = x
+    omega, zc, nzi = [w1, w2][:numorp], [z1, z2][:ncmrzs], [n1, n2][:ncmrzs]
+    if numorp > 0:
+        data.fourD = {"OMEGA%d" % (e + 1): omega[e] for e in range(numorp)}
+    if ncmrzs > 0:
+        data.fiveD = {"ZCMRC%d" % (e + 1): zc[e] for e in range(ncmrzs)}
+        for e in range(ncmrzs):
+            data.fiveD["NZINTS%d" % (e + 1)] = nzi[e]
+    st = memstream()
+    stream(Dif3dStream, "DIF3D", "wb", st, data).readWrite()
+    assert st.nwrites() == 3 * (4 + (1 if numorp > 0 else 0) + (1 if ncmrzs > 0 else 0)), "optional records iff announced"
+    sizes = [3 * 8 + 4, dif3d.TITLE_RANGE * 8 + 3 * 4, 4 * len(dif3d.FILE_SPEC_2D_PARAMS), 8 * len(dif3d.FILE_SPEC_3D_PARAMS)]
+    if numorp > 0:
+        sizes.append(8 * numorp)
+    if ncmrzs > 0:
+        sizes.append((8 + 4) * ncmrzs)
+    for r in range(len(sizes)):
+        (count,) = struct.unpack("i", st.written(3 * r))
+        assert count == sizes[r], "record length: 8-character words, 4-byte integers, double-precision reals"
+    st.seek(0)
+    back = Dif3dData()
+    stream(Dif3dStream, "DIF3D", "rb", st, back).readWrite()
+    for key in ident:
+        assert back.metadata[key] == ident[key]
+    for i in range(dif3d.TITLE_RANGE):
+        assert back.metadata["TITLE%d" % i] == "T%d" % i
+    for key in dif3d.FILE_SPEC_2D_PARAMS:
+        assert back.twoD[key] == data.twoD[key], "integer control parameter read back"
+    for key in dif3d.FILE_SPEC_3D_PARAMS:
+        assert eq(back.threeD[key], x), "real control parameter read back"
+    assert (back.fourD is None) == (numorp == 0) and (back.fiveD is None) == (ncmrzs == 0)
+    for e in range(numorp):
+        assert eq(back.fourD["OMEGA%d" % (e + 1)], omega[e])
+    if numorp > 0:
+        assert len(back.fourD) == numorp
+    for e in range(ncmrzs):
+        assert eq(back.fiveD["ZCMRC%d" % (e + 1)], zc[e]) and back.fiveD["NZINTS%d" % (e + 1)] == nzi[e]
+    if ncmrzs > 0:
+        assert len(back.fiveD) == 2 * ncmrzs
